@@ -134,7 +134,16 @@ class C07(Check):
                         ops.append({'op': 'update_var', 'node_vars': {f'{cn}/all/{opn}/{var}': v}})
             elif k == 'nv':
                 nv = {}
+                n_first = rng.choice(have)
+                allv = models.LIB[lib]['const'] + models.LIB[lib]['state']
+                if len(allv) >= 2 and rng.random() < 0.4:
+                    # two values for two variables of ONE operator of one node in the same call
+                    v1, v2 = rng.sample(allv, 2)
+                    nv[f'{n_first}/{opn}/{v1}'] = val(v1)
+                    nv[f'{n_first}/{opn}/{v2}'] = val(v2)
                 for _ in range(rng.randint(1, 2)):
+                    if nv:
+                        break
                     if rng.random() < 0.7:
                         nv[f'{rng.choice(have)}/{opn}/{var}'] = val()
                     else:
